@@ -6,7 +6,7 @@ import re
 from harness import core, docgen, inputs, trees
 
 GEN = ['gen_tables']
-THEOREMS = ['C10_tree_long_lines', 'C10_tree_long_lines_instance', 'C10_tree_reflow', 'C10_tree_reflow_pieces', 'C10_tree_reflow_instance', 'C10_plain_words_reflow', 'C10_plain_words_instance', 'C10_bound', 'C10_words_preserved', 'C10_fill_determined_by_words', 'C10_not_rebroken', 'C10_quote_budget',
+THEOREMS = ['C10_tree_reflow_normalized', 'C10_tree_reflow_normalized_instance', 'C10_tree_long_lines', 'C10_tree_long_lines_instance', 'C10_tree_reflow', 'C10_tree_reflow_pieces', 'C10_tree_reflow_instance', 'C10_plain_words_reflow', 'C10_plain_words_instance', 'C10_bound', 'C10_words_preserved', 'C10_fill_determined_by_words', 'C10_not_rebroken', 'C10_quote_budget',
             'C10_list_item_budget']
 TRUSTED = ['Model/MarkdownRenderer.v: hand-written model of markdown_renderer.py (fragments, make_words, fragments_to_lines, prefix_lines, '
            'block rendering, tables); the whitespace table (\\s / str.isspace) is regenerated from the interpreter every run',
@@ -117,7 +117,7 @@ PREFIX_RE = re.compile(r'^(?:> ?| {1,8}|[-+*] {1,4}|\d{1,9}[.)] {1,4})*')
 BOUND_WORDS = ['Lorem', 'ipsum,', '(dolor)', 'sit', 'amet;', 'verylongwordindeed', 'x', 'Zed.', '"q"', "it's", 'a-b', 'é', '中文', 'alpha', 'beta', 'gamma', 'delta', 'omega']
 
 
-def gen_bound_block(rng, depth):
+def gen_bound_block(rng, depth, flush=False):
     """lines of one block: a paragraph, a setext heading, or (depth permitting) a quote / list holding blocks"""
     c = rng.random()
     if depth >= 3 or c < 0.45:
@@ -134,12 +134,14 @@ def gen_bound_block(rng, depth):
     for i in range(rng.randint(1, 3)):
         if i:
             kids.append('')
-        kids += gen_bound_block(rng, depth + 1)
+        # the first block of a list item stands right behind the marker: spaces in front of it would be read as padding of the marker
+        kids += gen_bound_block(rng, depth + 1, flush=(i == 0 and c >= 0.7))
     if c < 0.7:
         return ['> ' + l if l else '>' for l in kids]
     marker = rng.choice(['- ', '* ', '+ ', '1. ', '12) ', '-   '])
-    pad = ' ' * len(marker)
-    return [(marker if i == 0 else pad) + l if l else '' for i, l in enumerate(kids)]
+    ind = '' if flush else ' ' * rng.choice([0, 0, 0, 1, 2, 3])        # the marker itself may be indented by up to three spaces: the budget of the item shrinks by that too
+    pad = ind + ' ' * len(marker)
+    return [(ind + marker if i == 0 else pad) + l if l else '' for i, l in enumerate(kids)]
 
 
 def bound_worker(args):
@@ -296,6 +298,17 @@ def wt_reflow(t, L):
     return t
 
 
+def wt_norm(t):
+    """normalize_whitespace=True: every list marker is followed by one space"""
+    if t[0] == 'q':
+        return ('q', [wt_norm(k) for k in t[1]])
+    if t[0] == 'i':
+        return ('i', t[1], 1, [wt_norm(k) for k in t[3]])
+    if t[0] == 'm':
+        return ('m', t[1], 1, [wt_norm(k) for k in t[3]], t[4], wt_norm(t[5]))
+    return t
+
+
 def _wzl(x):
     return '[' + '; '.join(str(ord(c)) for c in x) + ']'
 
@@ -331,7 +344,9 @@ def wt_worker(args):
         with MarkdownRenderer(max_line_length=L) as r:
             out = r.render(Document(text))
             again = r.render(Document(out))
-        return [out, again, mistletoe.markdown(text), mistletoe.markdown(out)]
+        with MarkdownRenderer(max_line_length=L, normalize_whitespace=True) as r:
+            nout = r.render(Document(text))
+        return [out, again, mistletoe.markdown(text), mistletoe.markdown(out), nout, mistletoe.markdown(nout)]
     except Exception as e:
         return 'EXC %s: %s' % (type(e).__name__, e)
 
@@ -345,7 +360,7 @@ def _wt_shard(arg):
     with open(path, 'w') as f:
         f.write('From Coq Require Import ZArith List Bool.\nFrom Mistletoe Require Import Base.Sx Base.PyStr Base.PyText Proofs.ListLaw Spec.Fragment Proofs.FragmentP Proofs.ReflowTree.\n'
                 'Import ListNotations.\nOpen Scope Z_scope.\nDefinition cs : list (wtree * Z) := [\n  %s].\n'
-                'Eval vm_compute in map (fun c => (wwf (fst c), concat (text_of (spell (to_f (fst c)))), concat (text_of (spell (to_f (reflow (snd c) (fst c))))))) cs.\n'
+                'Eval vm_compute in map (fun c => (wwf (fst c), concat (text_of (spell (to_f (fst c)))), concat (text_of (spell (to_f (reflow (snd c) (fst c))))) ++ [0] ++ concat (text_of (spell (to_f (reflow (snd c) (norm (fst c)))))))) cs.\n'
                 % ';\n  '.join('(%s, %d)' % (wt_gallina(t), L) for t, L in cases))
     rc, out = core.sh(['coqc', '-Q', 'theories', 'Mistletoe', path], timeout=900, cwd=os.path.join(core.ROOT, 'coq'))
     for junk in [path[:-2] + ext for ext in ('.vo', '.vok', '.vos', '.glob', '.v')] + [os.path.join(d, '.C10Cases%d.aux' % k)]:
@@ -520,6 +535,15 @@ def run(ctx, only=None):
                                 'observed': r[3], 'expected': r[2], 'kf': None})
         elif r[1] != r[0]:
             ctx.failing.append({'interface': 'oracle(word trees)', 'input': inp, 'what': 'reflowing the reflowed text again changes it', 'observed': r[1], 'expected': r[0], 'kf': None})
+        else:
+            nwant = '\n'.join(wt_spell(wt_reflow(wt_norm(t), L))) + '\n'
+            ninp = {'text': src, 'L': L, 'normalize_whitespace': True}
+            if r[4] != nwant:
+                ctx.failing.append({'interface': 'oracle(word trees)', 'input': ninp, 'what': 'with normalize_whitespace the reflowed text is not the tree with one space after every marker, its paragraphs regrouped under their budgets',
+                                    'observed': r[4], 'expected': nwant, 'kf': None})
+            elif unl(r[2]) != unl(r[5]):
+                ctx.failing.append({'interface': 'oracle(word trees)', 'input': ninp, 'what': 'the HTML of the normalized, reflowed text differs from the original by more than line endings',
+                                    'observed': r[5], 'expected': r[2], 'kf': None})
     nm = 100 if ctx.quick() else 1000
     mres, err = model_word_trees(wj[:nm])
     if mres is None:
@@ -530,6 +554,8 @@ def run(ctx, only=None):
             ctx.count('word_trees_evaluated_in_the_model')
             src = '\n'.join(wt_spell(t)) + '\n'
             want = '\n'.join(wt_spell(wt_reflow(t, L))) + '\n'
+            nwant = '\n'.join(wt_spell(wt_reflow(wt_norm(t), L))) + '\n'
+            want = want + '\x00' + nwant        # the model's two texts come back joined by a NUL
             if not ok or msrc != src or mout != want:
                 ctx.disagreements.append({'interface': 'X-hyp(word trees)', 'input': {'text': src, 'L': L, 'tree': wt_gallina(t)},
                                           'model': {'wwf': ok, 'source': msrc, 'reflowed': mout}, 'impl': {'source': src, 'reflowed': want}})
